@@ -18,8 +18,10 @@ pub struct ReplyPort<K, M> { _p: core::marker::PhantomData<(K, M)> }
 pub mod poolmod {
     use super::*;
     verus! {
-#[verifier::external_body] #[verifier::reject_recursive_types(K)] #[verifier::reject_recursive_types(M)]
-pub struct WorkerProperties<K, M> { _p: core::marker::PhantomData<(K, M)> }
+/// stand-in for the pool record: the plain-data fields a router can read (`wid`, `is_draining`) are real fields, everything
+/// else (queue, actor, counters) is reached only through the methods below
+#[verifier::reject_recursive_types(K)] #[verifier::reject_recursive_types(M)]
+pub struct WorkerProperties<K, M> { pub wid: WorkerId, pub is_draining: bool, pub _p: core::marker::PhantomData<(K, M)> }
 /// the pool (R9 stand-in for HashMap<WorkerId, WorkerProperties>): which ids exist and which of them are available
 #[verifier::external_body] #[verifier::reject_recursive_types(K)] #[verifier::reject_recursive_types(M)]
 pub struct Pool<K, M> { _p: core::marker::PhantomData<(K, M)> }
